@@ -270,3 +270,69 @@ Fixpoint erase_val (v : bval) : bval :=
   end.
 Definition erase_field (f : bfield) : bfield := (false, bf_key f, erase_val (bf_val f)).
 Definition erase_fields (fs : list bfield) : list bfield := map erase_field fs.
+
+(* ------------------------------------------------------------------ encoding choices (C10, binary half)
+   Two documents are the same LOGICAL document under different encoding choices when they differ only
+   in: which token carries an integer (I32 / U32 / U64 / I64), how a string is written (quoted,
+   unquoted, or a token id that the resolver/strategy turns into the same string), and ghosts. *)
+Definition scalar_int (s : bscalar) : option Z :=
+  match s with
+  | SI32 z | SI64 z => Some z
+  | SU32 n | SU64 n => Some (Z.of_N n)
+  | _ => None
+  end.
+Definition string_like (s : bscalar) : bool :=
+  match s with SId _ | SQuoted _ | SUnquoted _ => true | _ => false end.
+
+Section Shared.
+  Variable cfg : bcfg.
+
+  Definition leq_scalar (s1 s2 : bscalar) : Prop :=
+    scalar_prim cfg s1 = scalar_prim cfg s2 \/ (exists z, scalar_int s1 = Some z /\ scalar_int s2 = Some z).
+
+  Fixpoint leq_val (v1 v2 : bval) {struct v1} : Prop :=
+    match v1, v2 with
+    | VScalar s1, VScalar s2 => leq_scalar s1 s2
+    | VRgb c1, VRgb c2 => c1 = c2
+    | VArr l1, VArr l2 =>
+      (fix go (l1 l2 : list bval) {struct l1} : Prop :=
+         match l1, l2 with
+         | [], [] => True
+         | x :: r, y :: r' => leq_val x y /\ go r r'
+         | _, _ => False
+         end) l1 l2
+    | VObj f1 _, VObj f2 _ =>
+      (fix go (l1 l2 : list bfield) {struct l1} : Prop :=
+         match l1, l2 with
+         | [], [] => True
+         | x :: r, y :: r' => (leq_scalar (bf_key x) (bf_key y) /\ leq_val (bf_val x) (bf_val y)) /\ go r r'
+         | _, _ => False
+         end) f1 f2
+    | _, _ => False
+    end.
+  Fixpoint leq_vals (l1 l2 : list bval) : Prop :=
+    match l1, l2 with
+    | [], [] => True
+    | x :: r, y :: r' => leq_val x y /\ leq_vals r r'
+    | _, _ => False
+    end.
+  Fixpoint leq_fields (l1 l2 : list bfield) : Prop :=
+    match l1, l2 with
+    | [], [] => True
+    | x :: r, y :: r' => (leq_scalar (bf_key x) (bf_key y) /\ leq_val (bf_val x) (bf_val y)) /\ leq_fields r r'
+    | _, _ => False
+    end.
+
+  (* the specification restricted to targets for which the encoding choice cannot matter: no
+     dynamically typed (`any`, date) target on an integer, no u16 (token) target on a string-like scalar *)
+  Definition shared_dispatch (iskey : bool) (h : hint) (v : bval) (st : dcur) : outcome (action dcur rgb * dcur) :=
+    match v, h with
+    | VScalar s, HAny => match scalar_int s with Some _ => Err EC_UNFIT | None => doc_dispatch cfg iskey h v st end
+    | VScalar s, HU16 => if string_like s then Err EC_UNFIT else doc_dispatch cfg iskey h v st
+    | _, _ => doc_dispatch cfg iskey h v st
+    end.
+  Definition ops_shared : path_ops dcur bval rgb :=
+    mkops shared_dispatch doc_next_elem doc_seq_exit (fun outer _ => Ok outer) doc_next_key doc_next_value (color_visit cfg).
+  Definition spec_shared (fuel : nat) (sh : shape) (fs : list bfield) (gend : bool) : outcome dval :=
+    walk_root (c_fops cfg) ops_shared fuel sh (CMap fs gend None).
+End Shared.
